@@ -208,6 +208,7 @@ func main() {
 	}
 	s2.VerifYieldFn = core.Yield
 	s2.VerifBeforeLockFn = core.BeforeLock
+	s2.VerifCondFn = core.CondOp
 	s2.VerifBeforeUnlockFn = core.BeforeUnlock
 
 	out := bufio.NewWriterSize(os.Stdout, 1<<16)
